@@ -138,6 +138,23 @@ PROPS = {
         "not_covered": ["returns a proof exactly when every row identity holds (A2)", "compute_sigma_permutations (A3)",
                         "never panics (quotient split, see DESIGN §6.1)"],
     },
+    "C07": {
+        "v_units": ["range.py"],
+        "r": [("composer_leaves", None)],
+        "claim": "shape independence as non-interference: every verified component contract states gates(final) == gates(old) + shape(...) "
+                 "where shape is a function of wire INDICES and constant parameters only (no witness value occurs in it), for all field "
+                 "values: append_gate, append_evaluated_output (row count 1 on all three q_O paths; output witness iff q_O != 0, a "
+                 "selector, not a witness value), gate_add/mul, assert_equal(_constant), append_constant/public, component_boolean, "
+                 "component_select/_one/_zero, range_check_even / range_check / component_range(_bits) for every width <= 256. "
+                 "Totality: all index / overflow / unwrap / callee-precondition obligations of these bodies are discharged.",
+        "technique": "contract-based deductive verification: Verus on the real functions annotated in place (overlay); leaf effects by ring/trace checker",
+        "level_note": "Components not yet under contract (logic, truncate, decomposition, point, fixed_base gadgets) are not covered by this claim. "
+                      "Precondition of every component: witness arguments were allocated by this composer (valid_w).",
+        "design_ref": "DESIGN.md §4 C07",
+        "assumptions": A_VERUS + ["CANON model of BlsScalar", "cut_le_bits (BitIterator8) contract", "Runtime::event cuts have no effect on the views"],
+        "trusted": T_VERUS + T_RING,
+        "not_covered": ["append_logic_component, component_truncate, component_decomposition, point and fixed-base gadgets, Compiler::compile pairing"],
+    },
     "C08": {
         "v_units": ["composer_base.py", "composer_bits_select.py"],
         "r": [("composer_leaves", None)],
@@ -170,6 +187,38 @@ PROPS = {
         "assumptions": A_VERUS + A_RING,
         "trusted": T_VERUS + T_RING,
         "not_covered": ["interval lemma (rows satisfiable iff value < 2^width)", "honest accumulator values"],
+    },
+    "C10": {
+        "r": [("widgets", lambda n: n.startswith("logic."))],
+        "claim": "logic widget only: ProverKey::compute_quotient_i / compute_linearization, VerifierKey::compute_linearization_commitment, "
+                 "delta and delta_xor_and equal the protocol's logic identity (quad range checks on the three accumulators, product wire "
+                 "w = a*b, AND/XOR relation) for all inputs.",
+        "technique": "contract-based deductive verification: ring/trace contract checker (exact polynomial normal form)",
+        "level_note": "NOT yet covered: append_logic_component layout for all pair counts, the quad-semantics lemma, the uniqueness lemma.",
+        "design_ref": "DESIGN.md §4 C10",
+        "assumptions": A_RING, "trusted": T_RING,
+        "not_covered": ["append_logic_component layout", "returned witness == AND/XOR of truncated inputs (lemma)"],
+    },
+    "C12": {
+        "r": [("widgets", lambda n: n.startswith("curve_addition."))],
+        "claim": "curve-addition widget only: prover quotient term, linearisation and verifier commitment term equal the twisted-Edwards "
+                 "(a = -1) addition law in polynomial form: x1*y2 - w, (w + y1 x2) - x3 (1 + d w y1 x2), (y1 y2 + x1 x2) - y3 (1 - d w y1 x2).",
+        "technique": "contract-based deductive verification: ring/trace contract checker (exact polynomial normal form)",
+        "level_note": "NOT covered: component_add_point etc. layouts, the group law of dusk-jubjub, uniqueness of (x3,y3).",
+        "design_ref": "DESIGN.md §4 C12",
+        "assumptions": A_RING + ["EDWARDS_D treated as an opaque constant symbol"], "trusted": T_RING,
+        "not_covered": ["point gadget layouts", "group law (A4, A5)"],
+    },
+    "C14": {
+        "r": [("widgets", lambda n: n.startswith("fixed_base."))],
+        "claim": "fixed-base widget only: extract_bit, check_bit_consistency, prover quotient term, linearisation and verifier commitment "
+                 "term equal the protocol's fixed-base row identity (bit in {-1,0,1}; xy_alpha = bit*xy_beta; Edwards addition of the "
+                 "selected table point to the accumulator).",
+        "technique": "contract-based deductive verification: ring/trace contract checker (exact polynomial normal form)",
+        "level_note": "NOT covered: component_mul_generator layout, canonical-scalar check, [s]G.",
+        "design_ref": "DESIGN.md §4 C14",
+        "assumptions": A_RING + ["EDWARDS_D treated as an opaque constant symbol"], "trusted": T_RING,
+        "not_covered": ["component_mul_generator layout and canonicity lemma", "group law"],
     },
     "C15": {
         "v_units": ["capacity.py"],
